@@ -20,6 +20,11 @@ Decided:
             mark_frame_superseded, called by apply_records) have no error exit that depends on the target frame's
             status. A tombstone can legitimately be replayed against a frame the persisted TOC already shows as
             deleted (the window of MPT-C04d); rejecting it makes every later open fail.
+  MPT-C04f  rebuild_indexes leaves a committed footer behind everything it wrote: on every path from a call that writes
+            index bytes into the live file (track/segment writers, the Tantivy flush, set_len) to an Ok exit there is
+            a later rewrite_toc_footer of rebuild_indexes itself. recover_wal relies on this: it only checkpoints and
+            persists the header afterwards, so a rebuild whose last TOC write precedes later index writes leaves a
+            header that points at index bytes, and the *next* open cannot find a TOC.
 Not decided: nested crashes during recovery (crash points)."""
 from . import lib
 from .facts import op_place
@@ -29,6 +34,46 @@ from .facts import op_place
 CANDIDATE_VIA = {
     'Memvid::flush_tantivy': 'reached only when the replay inserted no frame (tombstones / lex batches); replaying those again is idempotent (a tombstone re-marks a deleted frame), not reproduced as a state difference',
 }
+
+
+def _footer_last(ctx, F):
+    from . import c02
+    ctx.rule('MPT-C04f', 'rebuild_indexes: every in-place index write is followed on every Ok path by rebuild_indexes\' own rewrite_toc_footer')
+    rb = ctx.need('MPT-C04f', 'Memvid::rebuild_indexes')
+    if rb is None:
+        return
+    ctx.touch(rb, len(rb.blocks))
+    rw = rb.calls_to('Memvid::rewrite_toc_footer')
+    if not rw:
+        ctx.lost('MPT-C04f', 'rebuild_indexes no longer calls rewrite_toc_footer')
+        return
+    writers = []
+    for c in rb.calls():
+        if c in rw or c.is_(('persist_header',)):
+            continue
+        h = F.fns.get(c.local_callee) if c.local_callee else None
+        if h is not None:
+            if any(c02.direct_live_writes(g) for g in lib.reachable_fns(F, [h]).values()):
+                writers.append(c)
+        elif c in c02.direct_live_writes(rb):
+            writers.append(c)
+    ctx.floor('MPT-C04f', len(writers), 3, 'calls in rebuild_indexes that write index bytes into the live file')
+    exits = {ex['bb'] for ex in rb.ok_exits()}
+    cut = {r.bb for r in rw}
+    bad = []
+    for w in writers:
+        ctx.evaluations += 1
+        start = w.target if w.target is not None else w.bb
+        if start in cut:
+            continue
+        if rb.reachable(start, avoid=cut) & exits:
+            bad.append(w)
+    if bad:
+        w = bad[-1]
+        ctx.bad('MPT-C04f', rb, 'after %s wrote into the live file an Ok exit is reachable without a later rewrite_toc_footer: the last TOC on disk precedes (and is overwritten by) the index bytes, '
+                'and after an open-time recovery the header points at bytes that are not a TOC' % w.key.split('::')[-1], line=w.line, sink='rewrite_toc_footer', detail='index-write-after-last-toc')
+    else:
+        ctx.ok('MPT-C04f', rb, 'all %d in-place index writes are followed by rewrite_toc_footer on every Ok path' % len(writers), line=rw[-1].line)
 
 
 STABLE_VIA = set(CANDIDATE_VIA) | {'Memvid::rebuild_indexes'}
@@ -139,6 +184,7 @@ def run(ctx):
                     'and so does every later open' % hit[0][1], line=hit[0][0].get('line'), detail='status-dependent-error')
         else:
             ctx.ok('MPT-C04e', g, 'no error exit depends on Frame.status (%d error sites, %d status tests)' % (len(errs), len(tests)))
+    _footer_last(ctx, F)
     ol = ctx.need('MPT-C04b', 'Memvid::open_locked')
     if ol is not None:
         ctx.touch(ol, len(ol.blocks))
